@@ -36,7 +36,7 @@ Notation "P ~> Q" := (leadsto r P Q) (at level 70).
 Notation ensures := (lt_ensures guard eff r (Inv cap) Inv_run).
 Notation ensures_s := (lt_ensures_s guard eff r (Inv cap) Inv_run).
 Let Fwl : sfair g_wl r := proj1 (proj2 (proj2 (proj2 F))).
-Let Fbody : sfair g_body r := proj2 (proj2 (proj2 (proj2 (proj2 (proj2 (proj2 F)))))).
+Let Fbody : sfair g_body r := proj1 (proj2 (proj2 (proj2 (proj2 (proj2 (proj2 (proj2 F))))))).
 Let Wwl := sfair_fair guard eff r g_wl Fwl.
 Let Wbody := sfair_fair guard eff r g_body Fbody.
 Notation rl_release := (CliL2.rl_release cap cap_pos r F R0 NS).
@@ -68,14 +68,14 @@ Proof.
   intros s p Hp (I1 & I2 & _) Hc. pose proof (i_bw _ I1) as Hb. pose proof (i_mid1 _ I2) as Hm.
   unfold bw_of_state, midn, cpc in *.
   destruct p as [|[|[|p]]]; try lia.
-  - destruct (wl s) as [| | |?|?| | | |[]| | |]; try discriminate.
+  - destruct (wl s) as [| | |?|?| | |[]| | |]; try discriminate.
     destruct (rl s) as [|?| |?|? ?|? ?| | |[]|]; cbn in *; try lia; auto;
       destruct (uc s) as [|[]|]; cbn in *; try lia; auto.
   - destruct (rl s) as [|?| |?|? ?|? ?| | |[]|]; try discriminate.
-    destruct (wl s) as [| | |?|?| | | |[]| | |]; cbn in *; try lia; eauto;
+    destruct (wl s) as [| | |?|?| | |[]| | |]; cbn in *; try lia; eauto;
       destruct (uc s) as [|[]|]; cbn in *; try lia; auto.
   - destruct (uc s) as [|[]|]; try discriminate.
-    destruct (wl s) as [| | |?|?| | | |[]| | |]; cbn in *; try lia; eauto;
+    destruct (wl s) as [| | |?|?| | |[]| | |]; cbn in *; try lia; eauto;
       destruct (rl s) as [|?| |?|? ?|? ?| | |[]|]; cbn in *; try lia; auto.
 Qed.
 
